@@ -862,8 +862,18 @@ def o_C15(sc):
         k = {} if m is None else {'MRTS': _np_form(m, _forms(sc).get('mrts'))}
         return (quiet(spk.isi_profile, a, b, **k), quiet(spk.spike_profile, a, b, **ri, **k),
                 quiet(spk.spike_sync_profile, a, b, **mt, **k),
-                quiet(spk.isi_profile, L, **k), quiet(spk.spike_profile, L, **ri, **k), quiet(spk.spike_sync_profile, L, **mt, **k))
+                quiet(spk.isi_profile, L, **k), quiet(spk.spike_profile, L, **ri, **k), quiet(spk.spike_sync_profile, L, **mt, **k),
+                quiet(spk.spike_train_order_profile, a, b, **mt, **k), quiet(spk.spike_train_order_profile, L, **mt, **k))
+    def scal(m):
+        # the order / directionality family takes the same keyword (its window is the SPIKE-Sync window)
+        k = {} if m is None else {'MRTS': _np_form(m, _forms(sc).get('mrts'))}
+        return [quiet(spk.spike_directionality, a, b, **mt, **k), quiet(spk.spike_train_order, a, b, **mt, **k),
+                quiet(spk.spike_train_order, L, **mt, **k)] + [list(v) for v in quiet(spk.spike_directionality_values, L, **mt, **k)] + \
+               [list(r) for r in quiet(spk.spike_directionality_matrix, L, **mt, **k)]
     P0, Pz, P1, P2 = profs(None), profs(0), profs(m1), profs(m2)
+    S0 = scal(None)
+    if not res_eq(S0, scal(0)):
+        return 'C15 MRTS=0 differs from the non-adaptive order / directionality values'
     for p, q in zip(P0, Pz):
         if not prof_eq(p, q):
             return 'C15 MRTS=0 differs from the non-adaptive measure'
@@ -887,6 +897,13 @@ def o_C15(sc):
     for p, q in zip(P0, Ps):
         if not prof_eq(p, q):
             return 'C15 MRTS=%s below every inter-spike interval changes a profile' % small
+    for sm in (small, min(isis) * 15 / 16):
+        if not res_eq(S0, scal(sm)):
+            return 'C15 MRTS=%s below every inter-spike interval changes an order / directionality value' % sm
+        if sm != small:
+            for p, q in zip(P0, profs(sm)):
+                if not prof_eq(p, q):
+                    return 'C15 MRTS=%s below every inter-spike interval changes a profile' % sm
     # 'auto' = explicit threshold = rms of the pooled ISI lengths
     from pyspike.isi_lengths import default_thresh
     R = quiet(spk.spikes.reconcile_spike_trains, L)
